@@ -5,7 +5,7 @@ SPEC = {
     "extract": ["c08"],
     "harness": "c08",
     "driver": "Driver/C08.lean",
-    "needs_plz": False,
+    "needs_plz": True,
     "level": "proof",
     "level_text": "full-strength statement (Complete: equal rule-hash pre-images imply equal values of every listed attribute) is "
                   "DISPROVED for the pinned code by kernel-checked witnesses (C08_violated, C08_witness_*: unframed writes, "
@@ -14,7 +14,10 @@ SPEC = {
                   "once, unconditionally - dropping a field breaks it), C08_partial_{single,scalar,bool,list,list_edit,map,"
                   "command,file_content,sandbox,srcs} (one-attribute changes are always seen, up to equal concatenations for "
                   "lists/maps), C08_full_framed (framing every write over the same schema determines every attribute; unbounded, "
-                  "via Frame.Uniq). Not modelled: the construction API (Add*), post-build rule hash, remote execution digests.",
+                  "via Frame.Uniq). C08_prebuild_{stamp,command,outs} "
+                  "(the memoised hash every later build step uses is the hash of the target AFTER its pre-build function ran - fact "
+                  "earlyRuleHashCalls = []; C08_witness_early_memo shows an earlier memoising call makes the stamp blind to set_command). "
+                  "Not modelled: the construction API (Add*), post-build rule hash, remote execution digests.",
     "technique": "Lean 4 theorems over a schema-interpreting model of the rule-hash pre-image + write schema regenerated from "
                  "ruleHash/hashMap/hashBool + differential correspondence sha1(model pre-image) = build.RuleHash",
     "trusted": [
@@ -26,6 +29,8 @@ SPEC = {
         "SHA-1 idealised as injective on pre-images",
         "modelled, not verified: Model/RuleHash.lean (accessors AllSources/DeclaredDependencies/GetCommand/... and the schema interpreter)",
         "direct oracle: targets differing in a listed attribute with equal real RuleHash, classified by an independent Go spec",
+        "end-to-end oracle (plz binary): targets whose command / outputs are set by a pre_build function from a dependency's labels must "
+        "show the new result after the label changed (e2e08 ops; no model counterpart)",
     ],
     "assumptions": [
         "targets are well formed as the BuildTarget Add* API leaves them (outputs sorted and distinct, map keys distinct, no self dependency)",
